@@ -12,7 +12,8 @@ from . import c05
 
 RULE = ("Generated: 32/48/96-byte hash inputs whose integer value comes from the boundary mixture (values >= modulus, >= 2*modulus, all "
         "top-bit patterns, x-coordinates chosen by the reference so that 0..k increments are needed) and random byte streams (raw, "
-        "all-ones, candidates >= modulus first) for the samplers. Oracle: zp_from_hash / scalar_hash_reduce = masked value reduced once; "
+        "all-ones, candidates >= modulus first) for the samplers, and base-|x| digit streams incl. the digits of r-1, r, r+1 for the "
+        "decomposed-exponent samplers (PowersOfX::random, wkdibe::random_zpstar(powers, s)): y < r, digits < |x|, digits recombine to y. Oracle: zp_from_hash / scalar_hash_reduce = masked value reduced once; "
         "hash-to-curve: x is the first x >= x0 (incrementing c0) with x^3+b a square by the REFERENCE Legendre symbol, y^2 = x^3+b, "
         "identical on repeated calls and on a second back end (portable 64-bit); compute_id_from_hash = [h]*(that point) by the "
         "reference and in G1; sampled scalars/field elements < modulus; sampled group elements on the curve, not the identity, [r]P = O "
@@ -26,7 +27,7 @@ API = "embedded_pairing_bls12_381_"
 M381 = (1 << 381) - 1
 
 OPS = ("zp_from_hash", "scalar_hash_reduce", "g1_from_hash", "g2_from_hash", "lq_id", "zp_random", "zpstar", "fq_random", "fq2_random",
-       "g1_random", "g2_random", "wk_g1", "wk_g2", "wk_gt")
+       "g1_random", "g2_random", "wk_g1", "wk_g2", "wk_gt", "px_random", "wk_zpstar_px")
 
 
 @st.composite
@@ -93,6 +94,10 @@ def cases(draw):
                 xs = [T[0]] if g == 1 else [T[0][0], T[0][1]]
                 head = b"".join(conv.bi(conv.fq_raw(v), 384) for v in xs) + bytes([draw(st.integers(0, 255))])
                 c["sk"], c["stream"] = "cofactor_point", head + c["stream"]
+    elif op in ("px_random", "wk_zpstar_px"):
+        # decomposed exponents: streams of base-|x| digits incl. the digits of r-1, r, r+1, |x|^4-1 (whole-value rejection boundary)
+        from . import c07
+        c["sk"], c["stream"] = draw(c07.streams())
     else:
         c["sk"], c["stream"] = draw(stream(8, -F.X, 64))
     return c
@@ -240,6 +245,18 @@ def check(ctx, env, c):
         expect(got is not None, op + "/identity", "sampled group element is the identity")
         expect(C.on_curve(got, K), op + "/offcurve", lambda: "stream=%s" % c["stream"].hex())
         expect(C.mul(got, R, K) is None, op + "/subgroup", lambda: "stream=%s: [r]P != O" % c["stream"].hex())
+        return
+    if op in ("px_random", "wk_zpstar_px"):
+        ABS_X = -F.X
+        lib.B.fill(0xCD, 32)
+        lib.fn("vf_px_random" if op == "px_random" else "vf_wk_random_zpstar_px", None)(lib.O.ptr, lib.B.ptr)
+        cs = conv.px_unpack(lib, lib.O.read(lib.sizeof("PowersOfX")))
+        y = conv.ib(lib.B.read(32))
+        rej = lib.rand_requested() > 32
+        ctx.count(c, rej or sk == "target", "%s:%s%s" % (op, sk, ":rejected" if rej else ""))
+        expect(y < R, op + "/range", lambda: "stream=%s y=%x" % (c["stream"].hex(), y))
+        expect(all(d_ < ABS_X for d_ in cs), op + "/digit-range", lambda: "stream=%s digits=%r" % (c["stream"].hex(), cs))
+        expect(sum(d_ * ABS_X**i for i, d_ in enumerate(cs)) == y, op + "/consistency", lambda: "digits=%r do not recombine to y=%x" % (cs, y))
         return
     # wk_gt
     f = lib.dll.embedded_pairing_wkdibe_random_gt
